@@ -33,6 +33,12 @@ func unescapeParameter(b bytes.Bytes) bytes.Bytes {
 	return c
 }
 
+// UnescapeParameter returns the value of a directive parameter: without the
+// enclosing quotes and the escape characters if the parameter is quoted.
+func UnescapeParameter(b bytes.Bytes) bytes.Bytes {
+	return unescapeParameter(b)
+}
+
 func IsArrayOfTypes(b bytes.Bytes) bool {
 	l := len(b)
 	if l >= 4 && b[0] == '[' && b[l-1] == ']' {
